@@ -8,6 +8,7 @@ package scen
 
 import (
 	"fmt"
+	"strings"
 	"time"
 
 	z "github.com/Oudwins/zog"
@@ -22,7 +23,7 @@ type c17Live struct {
 	obs    func() []string
 }
 
-var c17CallNames = []string{"Required()", "Optional()", "Default(a)", "Default(b)", "Catch(a)", "Catch(b)"}
+var c17CallNames = []string{"Required()", "Optional()", "Default(a)", "Default(b)", "Catch(a) / slices: Default(nil)", "Catch(b) / slices: Default(empty list)"}
 
 func c17IssueList(l z.ZogIssueList) string {
 	s := ""
@@ -192,7 +193,7 @@ func c17Lives() []func() c17Live {
 		},
 		func() c17Live {
 			s := z.Slice(z.Int().GT(2)).Min(1)
-			return c17Live{"Slice(Int().GT(2)).Min(1)", 4, func(c int) {
+			return c17Live{"Slice(Int().GT(2)).Min(1)", 6, func(c int) {
 				switch c {
 				case 0:
 					s.Required()
@@ -202,6 +203,10 @@ func c17Lives() []func() c17Live {
 					s.Default([]int{7})
 				case 3:
 					s.Default([]int{1, 1})
+				case 4:
+					s.Default(nil) // clears the default
+				case 5:
+					s.Default([]int{})
 				}
 			}, func() (o []string) {
 				for _, in := range []any{nil, []any{1}, []any{9}} {
@@ -228,8 +233,10 @@ func c17ReuseScenario(x *mc.X) *mc.Outcome {
 	live, fresh := mk(), mk()
 	n := 2 + x.Choose(2, "calls")
 	var chain []string
+	var callsMade []int
 	for i := 0; i < n; i++ {
 		c := x.Choose(live.ncalls, "call")
+		callsMade = append(callsMade, c)
 		chain = append(chain, c17CallNames[c])
 		live.apply(c)
 		fresh.apply(c)
@@ -239,8 +246,29 @@ func c17ReuseScenario(x *mc.X) *mc.Outcome {
 	}
 	got, want := live.obs(), fresh.obs()
 	zh.Reset()
+	// last-call-wins, stated absolutely for the list schema's Default (the fresh schema is built by the same calls):
+	// what an absent input leaves in the destination is decided by the LAST Default call — a list, an empty list,
+	// or nil, which removes the default
+	absolute := ""
+	if live.name == "Slice(Int().GT(2)).Min(1)" {
+		lastDef := -1
+		for _, c := range callsMade {
+			if c >= 2 {
+				lastDef = c
+			}
+		}
+		wantDest := map[int]string{-1: "[-99]", 2: "[7]", 3: "[1 1]", 4: "[-99]", 5: "[]"}[lastDef]
+		if len(want) > 0 && !strings.HasSuffix(want[0], "-> "+wantDest) {
+			absolute = fmt.Sprintf("Parse(nil) must leave %s (the last Default call decides), observed: %s", wantDest, want[0])
+		}
+	}
 	out := &mc.Outcome{Traces: 2, Nontrivial: true, Sig: fmt.Sprintf("reuse|%s|%v", live.name, chain)}
 	out.Sample = map[string]any{"schema": live.name, "calls": chain, "observations": want}
+	if absolute != "" {
+		x.Note("%s, calls %v", live.name, chain)
+		out.Viol = append(out.Viol, &mc.Violation{Key: "C17:default-last-call-wins:" + live.name, What: "the last Default call does not decide what an absent input gets", Expected: "see observed", Observed: absolute})
+		return out
+	}
 	for i := range want {
 		if i >= len(got) || got[i] != want[i] {
 			x.Note("%s, calls %v; the live schema was executed (absent, failing and passing inputs, both modes) after every call but the last", live.name, chain)
